@@ -23,6 +23,11 @@ CLAIMED["C04"]=dict(
    text="Exploration: 8k (quick) / 200k (thorough) generated programs biased toward discarded bindings with host calls, failures and overflow-prone arithmetic; any difference other than a skipped arithmetic overflow is a violation.",
    note="when the unoptimised run overflows and the optimised one does not the case is counted but not compared further (the permitted difference); single-module programs only so far",
    ref="6 C04")
+CLAIMED["C02"]=dict(
+   technique="property-based testing of type soundness: generated well-typed programs, random AST mutants of them, multi-module programs and row-polymorphism templates, each under a random vector of compiler settings; oracle = accepted => no panic / death / shape complaint and a type-guided walk of the returned value succeeds (plus the reference outcome for unmutated programs)",
+   text="Exploration: 10k (quick) / 250k (thorough) cases over {typed, mutant, modules, row-polymorphism templates} x 2^4 (2^5 thorough) setting vectors. Mutants rejected by the checker are counted; accepted ones are the interesting cases. Two recorded known findings (row-type unsoundness D5/D10) are matched by template feature + failure kind.",
+   note="the soundness oracle observes what reaches the host (error class/message, value shape); it cannot see silent memory corruption that happens to produce a well-shaped value",
+   ref="6 C02")
 NOT_YET = {}
 def main():
     props=[json.loads(l) for l in open('/verif/properties.jsonl')]
